@@ -385,4 +385,5 @@ func RunC05(c *core.Ctx) {
 			}
 		}
 	}
+	runC05Protocol(c)
 }
